@@ -83,7 +83,7 @@ class Environment:
         temperature: float | None = None,
         wavelength: float | WavelengthHandling | None = None,
     ):
-        if isinstance(temperature, int | float) and not (0.0 < temperature <= 1000.0):
+        if temperature is not None and not (0.0 < temperature <= 1000.0):
             raise ValueError("'temperature' must be between 0.0 and 1000.0.")
 
         if isinstance(wavelength, int | float) and not (wavelength > 0.0):
